@@ -184,16 +184,20 @@ def run(call: GeneratorCall) -> Module:
         msg = f"Generator {call.gen} returned {m}, must return `Module`."
         raise RuntimeError(msg)
 
+    # A Module generated, and named, by another `GeneratorCall` may merely be handed along by this one.
+    # It keeps its name: re-naming it in place would make its name depend on which generators have been called.
+    name_it = m._generated_by is None
+
     # Give the result a reference back to the generating `Call`
     m._generated_by = call
 
     # Module naming
     # If the Module that comes back is anonymous, start by giving it a name equal to the Generator's
-    if m.name is None:
+    if name_it and m.name is None:
         m.name = call.gen.name
 
     # If it has a nonzero number of parameters, add a unique suffix per its parameter-values
-    if hasparams(call.gen.Params):
+    if name_it and hasparams(call.gen.Params):
         m.name += "(" + _unique_name(call.params) + ")"
 
     # Store the result in our cache, and on the Call.
